@@ -337,7 +337,8 @@ class Ctx:
                     lines.append("KNOWN-FINDING: property=%s %s" % (self.pid, k["what"]))
                 continue
             violations += 1
-            lines.append("VIOLATION property=%s replay=%s" % (self.pid, fd["replay"]))
+            if violations <= 3:
+                lines.append("VIOLATION property=%s replay=%s" % (self.pid, fd["replay"]))
         if self.broken and violations == 0:
             # a proof or a tie no longer checks and no concrete failing input was found
             path = self.write_replay("broken", {
